@@ -40,6 +40,9 @@ Definition cp_first (c : cdata K) : cdata K :=
   match c with CCP s r g => CTT 1 s r (fun _ i b => g i b) | c => c end.
 Definition cp_last (c : cdata K) : cdata K :=
   match c with CCP s r g => CTT r s 1 (fun a i _ => g i a) | c => c end.
+(* a tensor with a single CP factor: both bonds close, the rank index is summed out *)
+Definition cp_single (c : cdata K) : cdata K :=
+  match c with CCP s r g => CTT 1 s 1 (fun _ i _ => sumn r (fun k => g i k)) | c => c end.
 Definition on_core (f : cdata K -> cdata K) (m : mode K) : mode K := mkMode (f (core m)) (fac m).
 
 Fixpoint cp_to_tt_tail (t : tensor K) : tensor K :=
@@ -51,7 +54,7 @@ Fixpoint cp_to_tt_tail (t : tensor K) : tensor K :=
 Definition cp_to_tt (t : tensor K) : tensor K :=
   match t with
   | [] => []
-  | [m] => [on_core cp_first m]
+  | [m] => [on_core cp_single m]
   | m :: t' => on_core cp_first m :: cp_to_tt_tail t'
   end.
 
@@ -66,6 +69,6 @@ Definition clone (t : tensor K) : tensor K := t.
 
 End Convert.
 Arguments absorb {K}. Arguments decompress_mode {K}. Arguments decompress {K}. Arguments decompress_sel {K}.
-Arguments cp_buf {K}. Arguments cp_to_tt_core {K}. Arguments cp_first {K}. Arguments cp_last {K}.
+Arguments cp_buf {K}. Arguments cp_to_tt_core {K}. Arguments cp_first {K}. Arguments cp_last {K}. Arguments cp_single {K}.
 Arguments on_core {K}. Arguments cp_to_tt_tail {K}. Arguments cp_to_tt {K}. Arguments tt {K}.
 Arguments transp_core {K}. Arguments transpose {K}. Arguments clone {K}.
